@@ -2,6 +2,10 @@ package main
 
 import (
 	"fmt"
+	"go/ast"
+	"go/parser"
+	"go/token"
+	"go/types"
 	"path/filepath"
 	"strings"
 	"sync"
@@ -20,6 +24,18 @@ type c11call struct {
 
 func (c c11call) name() string { return "derive" + c.plugin + c.suffix }
 
+// lit is the composite literal of the call's argument type: T1..T3 are local,
+// 4 and 5 are the same-named type T of two imported packages both named model.
+func (c c11call) lit() string {
+	switch c.typ {
+	case 4:
+		return "&amodel.T{}"
+	case 5:
+		return "&bmodel.T{}"
+	}
+	return fmt.Sprintf("&T%d{}", c.typ)
+}
+
 func (c c11call) src() string { return c.srcLate(false) }
 
 // srcLate: with late, the first argument is itself a derive call (Clone), so the
@@ -27,12 +43,12 @@ func (c c11call) src() string { return c.srcLate(false) }
 func (c c11call) srcLate(late bool) string {
 	if late && (c.plugin == "Equal" || c.plugin == "Compare") {
 		if c.curried {
-			return fmt.Sprintf("_ = %s(deriveCloneL%d(&T%d{}))(&T%d{})", c.name(), c.typ, c.typ, c.typ)
+			return fmt.Sprintf("_ = %s(deriveCloneL%d(%s))(%s)", c.name(), c.typ, c.lit(), c.lit())
 		}
-		return fmt.Sprintf("_ = %s(deriveCloneL%d(&T%d{}), &T%d{})", c.name(), c.typ, c.typ, c.typ)
+		return fmt.Sprintf("_ = %s(deriveCloneL%d(%s), %s)", c.name(), c.typ, c.lit(), c.lit())
 	}
 	if c.curried {
-		return fmt.Sprintf("_ = %s(&T%d{})(&T%d{})", c.name(), c.typ, c.typ)
+		return fmt.Sprintf("_ = %s(%s)(%s)", c.name(), c.lit(), c.lit())
 	}
 	switch c.plugin {
 	case "Clone":
@@ -40,7 +56,21 @@ func (c c11call) srcLate(late bool) string {
 	case "DeepCopy":
 		return fmt.Sprintf("%s(&T%d{}, &T%d{})", c.name(), c.typ, c.typ)
 	}
-	return fmt.Sprintf("_ = %s(&T%d{}, &T%d{})", c.name(), c.typ, c.typ)
+	return fmt.Sprintf("_ = %s(%s, %s)", c.name(), c.lit(), c.lit())
+}
+
+// srcIn renders the call; with inner it is the argument of another derive call
+// (Hash of its bool / int result), which is only typeable in a second pass.
+func (c c11call) srcIn(late, inner bool) string {
+	s := c.srcLate(late)
+	if !inner || (c.plugin != "Equal" && c.plugin != "Compare") || c.curried {
+		return s
+	}
+	of := "Bool"
+	if c.plugin == "Compare" {
+		of = "Int"
+	}
+	return "_ = deriveHashOf" + of + "(" + strings.TrimPrefix(s, "_ = ") + ")"
 }
 
 func (c c11call) String() string {
@@ -58,6 +88,7 @@ type c11pkg struct {
 	lateUse  bool // the user functions are called only from the last file (two-file layout)
 	pregen   bool // derived.gen.go already holds the output for the first call alone (an earlier run)
 	late     bool // every call after the first takes a derive call as its first argument: clashes only show in a second pass
+	inner    bool // every call after the first is itself the argument of another derive call (renamed in pass 1, the outer call typed in pass 2)
 }
 
 func (p c11pkg) label() string {
@@ -84,6 +115,9 @@ func (p c11pkg) label() string {
 	if p.late {
 		l += " [calls after the first take deriveClone(...) as first argument: registered in a second pass]"
 	}
+	if p.inner {
+		l += " [calls after the first are arguments of deriveHashOfBool/Int(...)]"
+	}
 	return l
 }
 
@@ -94,7 +128,30 @@ func (p c11pkg) userDecls() string {
 	return "func deriveEqual_(x int) int { return x }\nfunc deriveCompare_(x int) int { return x }\nfunc deriveDeepCopy_(x int) int { return x }\n\nvar _ = deriveEqual_(1) + deriveCompare_(2) + deriveDeepCopy_(3)\n\n"
 }
 
+func (p c11pkg) usesModel() bool {
+	for _, c := range p.calls {
+		if c.typ >= 4 {
+			return true
+		}
+	}
+	return false
+}
+
+const c11ModelImports = "import (\n\tamodel \"example.com/m/a/model\"\n\tbmodel \"example.com/m/b/model\"\n)\n\nvar _, _ = amodel.T{}, bmodel.T{}\n\n"
+
 func (p c11pkg) files() pkgFiles {
+	fs := p.files0()
+	if p.usesModel() {
+		for n, src := range fs {
+			fs[n] = strings.Replace(src, "package m\n\n", "package m\n\n"+c11ModelImports, 1)
+		}
+		fs["a/model/model.go"] = "package model\n\ntype T struct{ A int }\n"
+		fs["b/model/model.go"] = "package model\n\ntype T struct{ A int }\n"
+	}
+	return fs
+}
+
+func (p c11pkg) files0() pkgFiles {
 	var a, b strings.Builder
 	a.WriteString("package m\n\ntype T1 struct{ A int }\ntype T2 struct{ B int }\ntype T3 struct{ C int }\n\n")
 	if p.userFn && !p.lateUse {
@@ -110,7 +167,7 @@ func (p c11pkg) files() pkgFiles {
 	}
 	a.WriteString("func useA() {\n")
 	for i, c := range p.calls[:split] {
-		a.WriteString("\t" + c.srcLate(p.late && i > 0) + "\n")
+		a.WriteString("\t" + c.srcIn(p.late && i > 0, p.inner && i > 0) + "\n")
 	}
 	a.WriteString("}\n")
 	fs := pkgFiles{"a.go": a.String()}
@@ -121,7 +178,7 @@ func (p c11pkg) files() pkgFiles {
 		}
 		b.WriteString("func useB() {\n")
 		for _, c := range p.calls[split:] {
-			b.WriteString("\t" + c.srcLate(p.late) + "\n")
+			b.WriteString("\t" + c.srcIn(p.late, p.inner) + "\n")
 		}
 		b.WriteString("}\n")
 		fs["b.go"] = b.String()
@@ -161,6 +218,31 @@ func (p c11pkg) clashes() (conflict, duplicate bool) {
 	return
 }
 
+var (
+	c11LocalOnce sync.Once
+	c11Local     map[string]*types.Package
+)
+
+// c11LocalPkgs are the two packages named model of the scenario module, type-checked once.
+func c11LocalPkgs() map[string]*types.Package {
+	c11LocalOnce.Do(func() {
+		c11Local = map[string]*types.Package{}
+		for _, path := range []string{"example.com/m/a/model", "example.com/m/b/model"} {
+			fset := token.NewFileSet()
+			f, err := parser.ParseFile(fset, "model.go", "package model\n\ntype T struct{ A int }\n", 0)
+			if err != nil {
+				fatalInfra("c11 local package: %v", err)
+			}
+			pkg, err := (&types.Config{}).Check(path, fset, []*ast.File{f}, nil)
+			if err != nil {
+				fatalInfra("c11 local package: %v", err)
+			}
+			c11Local[path] = pkg
+		}
+	})
+	return c11Local
+}
+
 func checkC11(tier string) {
 	rep := newReporter("C11", tier)
 	kmax := 3
@@ -184,6 +266,13 @@ func checkC11(tier string) {
 			alphabet2 = append(alphabet2, c11call{"DeepCopy", sf, t, false})
 		}
 	}
+	// third alphabet: the same-named type T of two imported packages named model
+	var alphabet3 []c11call
+	for _, t := range []int{4, 5} {
+		for _, sf := range []string{"", "A"} {
+			alphabet3 = append(alphabet3, c11call{"Equal", sf, t, false})
+		}
+	}
 	var pkgs []c11pkg
 	var gen func(cur []c11call)
 	gen = func(cur []c11call) {
@@ -194,14 +283,15 @@ func checkC11(tier string) {
 				}
 				if len(cur) >= 2 && (len(cur) == 2 || tier == "thorough") && cur[0].plugin != "Clone" && cur[0].plugin != "DeepCopy" {
 					pkgs = append(pkgs, c11pkg{calls: append([]c11call(nil), cur...), twoFiles: two, late: true})
+					pkgs = append(pkgs, c11pkg{calls: append([]c11call(nil), cur...), twoFiles: two, inner: true})
 				}
 				for _, uf := range []int{0, 1, 2} {
-					pkgs = append(pkgs, c11pkg{append([]c11call(nil), cur...), two, uf > 0, uf == 2, false, false, false})
+					pkgs = append(pkgs, c11pkg{append([]c11call(nil), cur...), two, uf > 0, uf == 2, false, false, false, false})
 					if len(cur) >= 2 && !two && uf < 2 {
-						pkgs = append(pkgs, c11pkg{append([]c11call(nil), cur...), two, uf > 0, false, false, true, false})
+						pkgs = append(pkgs, c11pkg{append([]c11call(nil), cur...), two, uf > 0, false, false, true, false, false})
 					}
 					if two && uf > 0 {
-						pkgs = append(pkgs, c11pkg{append([]c11call(nil), cur...), two, true, uf == 2, true, false, false})
+						pkgs = append(pkgs, c11pkg{append([]c11call(nil), cur...), two, true, uf == 2, true, false, false, false})
 					}
 				}
 			}
@@ -215,6 +305,8 @@ func checkC11(tier string) {
 	}
 	gen(nil)
 	alphabet = alphabet2
+	gen(nil)
+	alphabet = alphabet3
 	gen(nil)
 	flagSets := [][]string{nil, {"-autoname"}, {"-dedup"}, {"-autoname", "-dedup"}}
 	type item struct {
@@ -237,7 +329,7 @@ func checkC11(tier string) {
 		files := it.p.files()
 		defer removeAll(dir)
 		if it.p.pregen {
-			first := c11pkg{it.p.calls[:1], false, it.p.userFn, it.p.userVar, false, false, false}
+			first := c11pkg{calls: it.p.calls[:1], userFn: it.p.userFn, userVar: it.p.userVar}
 			writePkg(dir, first.files())
 			if pr := goderive(dir, "."); pr.Exit != 0 {
 				rep.Violation("rejected-but-must-succeed|flags=(no flags)|single-call", fmt.Sprintf("single call %s rejected: %s", first.label(), head(firstErrorLine(pr.Stderr), 200)), map[string]interface{}{"engine": "e2", "files": first.files()})
@@ -263,6 +355,12 @@ func checkC11(tier string) {
 			}
 			if it.p.late {
 				key += "|late-args"
+			}
+			if it.p.inner {
+				key += "|inner-calls"
+			}
+			if it.p.usesModel() {
+				key += "|same-named-imported-types"
 			}
 			if it.p.calls[0].plugin == "Clone" || it.p.calls[0].plugin == "DeepCopy" {
 				key += "|clone+deepcopy"
@@ -303,7 +401,7 @@ func checkC11(tier string) {
 		mu.Unlock()
 		if ok {
 			// soundness of the result
-			cp := typeCheckDir(dir, false, nil)
+			cp := typeCheckDir(dir, false, c11LocalPkgs())
 			mu.Lock()
 			typechecks++
 			mu.Unlock()
@@ -386,7 +484,7 @@ func checkC11(tier string) {
 	rep.Cov["evaluations"] = len(items)
 	rep.Cov["distinct_nontrivial"] = nontriv
 	rep.Cov["result_type_checks"] = typechecks
-	rep.Cov["rule"] = "state = one package: a sequence of up to k derive calls, each (plugin in {Equal, Compare}) x (name in {bare prefix, prefix+A, prefix+B}) x (argument type in three pairwise non-assignable named struct pointers), in one file or split over two, with or without user functions (func declarations, or package-level variables of function type) that are called and carry the first fresh names goderive would mint (deriveEqual_, deriveCompare_), from scratch or on top of the derived.gen.go an earlier run produced for the first call alone; and with every call after the first taking a derive call as its first argument (the clash only exists from the second pass on; sequences of length 2 [all lengths]); the alphabet also holds the curried one-argument form of Equal (a different argument list under the same name); plus all sequences up to k over {Clone(*T1), Clone(*T2)} and DeepCopy x {bare, A} x {*T1, *T2} (Clone requests a DeepCopy helper itself); transition = one run of the real goderive on a fresh copy under one of the four flag combinations, exit status compared with the independently computed conflict/duplicate predicate, results of successful runs type-checked in-process and (for -dedup) checked for one function per plugin and parameter list; non-trivial = runs on packages with at least one clash"
+	rep.Cov["rule"] = "state = one package: a sequence of up to k derive calls, each (plugin in {Equal, Compare}) x (name in {bare prefix, prefix+A, prefix+B}) x (argument type in three pairwise non-assignable named struct pointers), in one file or split over two, with or without user functions (func declarations, or package-level variables of function type) that are called and carry the first fresh names goderive would mint (deriveEqual_, deriveCompare_), from scratch or on top of the derived.gen.go an earlier run produced for the first call alone; and with every call after the first taking a derive call as its first argument (the clash only exists from the second pass on; sequences of length 2 [all lengths]); or being itself the argument of another derive call (renamed in pass 1, the outer call typed in pass 2); the alphabet also holds the curried one-argument form of Equal (a different argument list under the same name); plus all sequences up to k over Equal x {bare, A} x the same-named type T of two imported packages both named model; plus all sequences up to k over {Clone(*T1), Clone(*T2)} and DeepCopy x {bare, A} x {*T1, *T2} (Clone requests a DeepCopy helper itself); transition = one run of the real goderive on a fresh copy under one of the four flag combinations, exit status compared with the independently computed conflict/duplicate predicate, results of successful runs type-checked in-process and (for -dedup) checked for one function per plugin and parameter list; non-trivial = runs on packages with at least one clash"
 	rep.Cov["bound"] = fmt.Sprintf("all call sequences of length 1..%d over an 18-call alphabet x {one file, two files} x {no user functions, user functions} x {from scratch, after an earlier run on the first call} = %d package states x 4 flag sets", kmax, states)
 	rep.Cov["distinct_outcomes"] = outcomes
 	rep.Cov["exhaustive"] = true
